@@ -512,6 +512,11 @@ func convMapToTarget(source interface{}, target reflect.Type) (interface{}, erro
 		if err != nil {
 			return nil, err
 		}
+		if evalue == nil {
+			// SetMapIndex with the zero Value would delete the key
+			result.SetMapIndex(k, reflect.Zero(target.Elem()))
+			continue
+		}
 		result.SetMapIndex(k, reflect.ValueOf(evalue))
 	}
 	return result.Interface(), nil
@@ -527,6 +532,11 @@ func convArrayTypeToTarget(source interface{}, target reflect.Type) (interface{}
 		evalue, err := convTypeToTarget(sourceValue.Index(i).Interface(), target.Elem())
 		if err != nil {
 			return nil, err
+		}
+		if evalue == nil {
+			// a null element is the zero value of the element type, as a null argument is of the parameter type
+			sliceValue = reflect.Append(sliceValue, reflect.Zero(target.Elem()))
+			continue
 		}
 		sliceValue = reflect.Append(sliceValue, reflect.ValueOf(evalue))
 	}
